@@ -60,6 +60,26 @@ DESC = {
  "C07-r2-1": "frame test by regexp + `frameMinSize` by leading zero (two sites); needs a sibling with ≥ 19 digits beyond int64",
  "C07-r2-2": "non-numeric middles appended to the single-files list and returned as matches; needs SingleFiles + no real match",
  "C02-r2-1": "runs merged into a single-value last block with the step sign flipped only locally; needs `5,4-1`",
+ "C01-r3-1": "`Append` coalesces a same-step range that starts one step after the previous block's RAW end; needs a first stepped component whose written end is off its grid (`1-100x10,110-200x10`)",
+ "C01-r3-2": "`NewFrameSet` Atoi fast path accepts `+5`; needs a whole string `^\\+\\d+$`",
+ "C03-r3-1": "pooled scratch buffers, `Format`'s error path returns a dirty buffer; needs a template that fails while executing, then `String()`",
+ "C03-r3-2": "zero-fill flag stripped with `strings.Trim` (also trailing zeros); needs `%010d`, `$F10`, `%020d`",
+ "C04-r3-1": "`dir+basename` prefix cached in a slice that `Copy()` shares; needs Copy, then SetDirname/SetBasename on one of the two",
+ "C04-r3-2": "single-file split moved above the frame-set error check; needs a trailing digit run that overflows int",
+ "C06-r3-1": "symlink filter keeps only regular targets; needs a link to a device / FIFO",
+ "C06-r3-2": "separator appended unconditionally; needs the argument to denote `/` (`/`, `//`, `/tmp/..`)",
+ "C08-r3-1": "membership bitset one word short when max-min is a multiple of 64; needs hundreds of blocks over such a span",
+ "C08-r3-2": "sparse-range jump ignores a block spanning the position; needs a stride or gap above 1024 plus a later block",
+ "C09-r3-1": "run scan skips in blocks of 16 comparing end points only; needs sorted=false, ≥ 17 frames, a near-run with interior disorder",
+ "C09-r3-2": "`%0Nd` verb built with one digit; needs zfill ≥ 10",
+ "C10-r3-1": "`SetPaddingStyle` restores a remembered spelling (as C10-2)",
+ "C10-r3-2": "hand parser strips zeros with `Trim`; needs a width that is a multiple of 10",
+ "C11-r3-1": "memo cache keyed by `frange+Itoa(pad)` without a separator; needs (`100`,12) before (`1001`,2) in one process",
+ "C11-r3-2": "inline `[16]string` guarded by the comma count; needs exactly 17 components → panic",
+ "C13-r3-1": "last block grown in place without resetting the cached length; needs an observer call between two adjacent appends",
+ "C13-r3-2": "non-sticky 'added in increasing order' flag skips the duplicate scan; needs high, low, middle, then a range reaching back into the high block",
+ "C14-r3-1": "first-range short-circuit replaced by a Min()/Max() test (as C14-1); needs a huge first range containing 0",
+ "C14-r3-2": "`End()` early-outs replaced by the sign of `(end-start)*step`; needs a product in (2^63, 2^64)",
  "C02-r2-2": "`Frames()` memoised and shared; needs Frames → caller mutates the slice → query again",
 }
 rows = []
